@@ -81,7 +81,9 @@ impl Psl {
 }
 
 const LABELS: &[&str] = &["a", "b", "ads", "www", "cdn", "x1", "my-site", "example", "foo", "bar", "tracker", "static", "s3", "blogspot", "github", "co", "com", "city", "n0"];
-const FIXED_SUFFIXES: &[&str] = &["com", "org", "net", "co.uk", "uk", "github.io", "io", "blogspot.com", "ck", "www.ck", "kawasaki.jp", "city.kawasaki.jp", "jp", "compute.amazonaws.com", "s3.amazonaws.com", "amazonaws.com", "example", "localhost", "local", "zz", "com.au", "au", "pvt.k12.ma.us", "k12.ma.us", "ma.us", "us", "kobe.jp", "city.kobe.jp", "bd", "x.bd", "er", "nom.br", "x.nom.br", "br"];
+const FIXED_SUFFIXES: &[&str] = &["com", "org", "net", "co.uk", "uk", "github.io", "io", "blogspot.com", "ck", "www.ck", "kawasaki.jp", "city.kawasaki.jp", "jp", "compute.amazonaws.com", "s3.amazonaws.com", "amazonaws.com", "example", "localhost", "local", "zz", "com.au", "au", "pvt.k12.ma.us", "k12.ma.us", "ma.us", "us", "kobe.jp", "city.kobe.jp", "bd", "x.bd", "er", "nom.br", "x.nom.br", "br",
+    // top-level labels that are not on the list and end in a digit (not addresses: the last label is not a number)
+    "web3", "x1", "site2", "a0", "0x10"];
 
 fn plain_host(r: &mut Rng, psl: &Option<Psl>) -> String {
     let suffix = match psl {
